@@ -61,7 +61,7 @@ def run(ctx):
         sty, src = loop_source(G, L) if L else (None, None)
         arg = G.expr_of_operand(pushes[0]['term']['args'][1])
         okp = bool(L) and sty == "std::slice::Iter<'_, grammar::ItemPathSegment>" and bool(find_calls(src, 'ItemPath::iter')) and not cycle_without(G, L[1], L[0], {pushes[0]['block']}) \
-            and bool(find_calls(arg, 'ItemPathSegment::as_str')) and any(is_call(x, 'Iterator::next') for x in walk(arg))
+            and is_call(strip(arg), 'ItemPathSegment::as_str') and strip(strip(arg)[2][0])[0] == 'payload' and is_call(strip(strip(strip(arg)[2][0])[1]), 'Iterator::next')
         pvar = strip(G.expr_of_operand(pushes[0]['term']['args'][0]))
         key_src = src
     elif len(exts_) == 1 and not pushes:
@@ -281,6 +281,39 @@ def run(ctx):
             un.append((bool(roots), not edits, short(g_.id), edits[:2]))
     ctx.ob(['C14', 'C13'], 'R-EXPR', 'C14-D5|printed-tree-is-the-parsed-tree', bool(un) and all(a_ and b_ for a_, b_, _, _ in un) if un else True,
            'prettyplease::unparse receives the syn::File that parse_file returned, not edited in between (%d site(s): %s)' % (len(un), [(n_, e_) for _, _, n_, e_ in un]), where, nontrivial=bool(un))
+    # what is written to the file is the assembled buffer itself or its pretty-printed form, nothing else
+    if fw:
+        def text_sources(e, d=0):
+            e = strip(e)
+            if d > 8:
+                return ['?']
+            if e[0] == 'call' and e[2] and re.search(r'(Deref>::deref|::as_str|::as_ref|::borrow|::as_bytes|::into_bytes|::clone|convert::Into<.*>>::into|convert::From<.*>>::from)$', e[1]):
+                return text_sources(e[2][0], d + 1)
+            if e[0] == 'call' and e[1].endswith('prettyplease::unparse'):
+                return ['unparse']
+            if e[0] == 'call' and e[1] in P.fns and not P.fns[e[1]].id.startswith('backends::rust::write_module') and d < 3:
+                H_ = P.fns[e[1]]
+                # the formatting helper of the split form: its result components are the printed text / the buffer it was given
+                return sorted({t_ for x in H_.exits() for v_ in split_values(H_, x['expr']) for t_ in (text_sources(v_[1][0], d + 1) if v_[0] == 'tuple' and v_[1] else text_sources(v_, d + 1))})
+            if e[0] == 'field' and e[2] in ('0', '1') and strip(e[1])[0] == 'call':
+                return text_sources(e[1], d + 1)
+            if e[0] in ('var', 'arg'):
+                ty_ = (wm.local_ty(e[1]) if e[0] == 'var' else '')
+                if e[0] == 'arg':
+                    return ['buffer']
+                ds = wm.init_of(e[1])
+                if ty_ == 'std::string::String' and any(is_call(strip(d_), 'String::new') for d_ in ds) and len(ds) == 1:
+                    return ['buffer']
+                out_ = []
+                for d_ in ds:
+                    if strip(d_) == e:
+                        return ['?']
+                    out_ += text_sources(d_, d + 1)
+                return out_ or ['?']
+            return [show(e)[:60]]
+        srcs_ = text_sources(wm.expr_of_operand(fw[0]['term']['args'][1]))
+        ctx.ob(['C14', 'C13'], 'R-EXPR', 'C14-D5|written-text-is-the-buffer', bool(srcs_) and set(srcs_) <= {'buffer', 'unparse'},
+               'the content handed to fs::write is the assembled buffer or prettyplease::unparse of its parse: %s' % sorted(set(srcs_)), where)
     # the text parsed is the text assembled
     okt = False
     if not pf and helper_pf and fw:
